@@ -318,9 +318,14 @@ impl DspRuntime for WasmDspRuntime {
             }
         };
 
+        // Rewind the per-sample allocations, but keep the closures that were scheduled
+        // during this tick (they live below the allocator floor).
         if let Some(saved_ptr) = saved_alloc_ptr
             && let Some(module) = self.engine.current_module_mut()
-            && let Err(err) = module.set_alloc_ptr(saved_ptr)
+            && let Err(err) = {
+                let floor = module.get_alloc_floor();
+                module.set_alloc_ptr((saved_ptr as u32).max(floor as u32) as i32)
+            }
         {
             log::warn!("failed to restore __alloc_ptr after dsp tick: {err}");
         }
